@@ -95,7 +95,7 @@ Section Sound.
   match e with
   | EIdent _ | EConst _ => true
   | ESelect a _ _ | ECall1 _ a => simple a
-  | ECall2 FIn a b => simple a && match b with EList _ => true | _ => false end
+  | ECall2 FIn a b => simple a && match b with EList _ => true | _ => simple b end
   | ECall2 _ a b | EMeth1 _ a b => simple a && simple b
   | ECompr _ r _ _ _ step _ =>
       simple r && match step with
@@ -674,6 +674,187 @@ Section Sound.
         end
     end.
 
+  (* ---------- membership in a list-valued expression ---------- *)
+  Definition scalar (v : cval) : Prop := match v with VInt _ | VUint _ | VDur _ | VString _ => True | _ => False end.
+
+  Lemma cequal_sym_scalar a b : scalar a -> scalar b -> cequal a b = cequal b a.
+  Proof.
+    destruct a, b; cbn [scalar]; try contradiction; intros _ _; cbn [cequal num_cmp];
+      try reflexivity; try (rewrite (Z.compare_antisym z z0); destruct (z ?= z0); reflexivity).
+    - apply bytes_eqb_sym.
+    - apply Z.eqb_sym.
+  Qed.
+
+  Lemma in_elem_cmp_ok ta tb : in_elem_ok ta tb = true -> cmp_ok OpEq tb ta = true.
+  Proof.
+    unfold in_elem_ok. destruct ta, tb; cbn [is_strlike andb orb cmp_ok is_eqne]; try discriminate; try reflexivity; intro H.
+    - destruct k, k0; cbn in *; congruence.
+    - exact H.
+  Qed.
+
+  Lemma in_elem_scalar ta tb va wa v w : in_elem_ok ta tb = true -> vrel ta va wa -> vrel tb v w -> scalar va /\ scalar v.
+  Proof.
+    unfold in_elem_ok. destruct ta, tb; cbn [is_strlike andb orb]; try discriminate; cbn [vrel]; intros _ Ha Hb;
+      repeat match goal with
+             | H : exists _, _ |- _ => destruct H
+             | H : _ /\ _ |- _ => destruct H
+             end; subst; split; cbn [scalar]; try exact I;
+      unfold cint; repeat match goal with |- context [match ?k with _ => _ end] => destruct k end; cbn; try exact I;
+      match goal with |- context [if ?c then _ else _] => destruct c end; exact I.
+  Qed.
+
+  (* the element tests of a membership loop: element == el, for every element of the list *)
+  Lemma member_tests ta tb va wa vs ws :
+    in_elem_ok ta tb = true -> vrel ta va wa -> Forall2 (vrel tb) vs ws ->
+    Forall2 (fun v w => gbinop BEq w wa = GV (GBool (cequal va v))) vs ws.
+  Proof.
+    intros Hok Ha F. induction F as [|v w vs ws Hvw _ IH]; constructor; [|exact IH].
+    destruct (cmp_sound OpEq tb ta v va w wa (in_elem_cmp_ok _ _ Hok) Hvw Ha) as [b [Hb Hc]].
+    rewrite ccmp_eq_total in Hc. assert (b = cequal v va) by (destruct Hc; congruence). subst b.
+    destruct (in_elem_scalar _ _ _ _ _ _ Hok Ha Hvw) as [Sa Sv].
+    rewrite (cequal_sym_scalar va v Sa Sv). exact Hb.
+  Qed.
+
+  Lemma go_exists_tests (f : gval -> gres) (p : cval -> bool) vs ws :
+    Forall2 (fun v w => f w = GV (GBool (p v))) vs ws -> go_exists f ws = GV (GBool (existsb p vs)).
+  Proof.
+    induction 1 as [|v w vs ws Hvw _ IH]; [reflexivity|]. cbn [go_exists existsb]. rewrite Hvw.
+    destruct (p v); [rewrite IH; reflexivity | exact IH].
+  Qed.
+
+  Lemma contains_tests wa (p : cval -> bool) vs ws :
+    Forall2 (fun v w => gbinop BEq w wa = GV (GBool (p v))) vs ws ->
+    (fix go (els : list gval) : gres :=
+       match els with
+       | [] => GV (GBool false)
+       | y :: r => match gbinop BEq y wa with
+                   | GV (GBool true) => match go r with GStuck => GStuck | _ => GV (GBool true) end
+                   | GV (GBool false) => go r
+                   | _ => GStuck
+                   end
+       end) ws = GV (GBool (existsb p vs)).
+  Proof.
+    induction 1 as [|v w vs ws Hvw _ IH]; [reflexivity|]. cbn [existsb]. rewrite Hvw.
+    destruct (p v); [rewrite IH; reflexivity | exact IH].
+  Qed.
+
+  Lemma item_like_fresh fuel n el coll : item_like n = true -> item_like (fresh_var fuel n el coll) = true.
+  Proof.
+    revert n. induction fuel as [|f IH]; intros n H; cbn [fresh_var]; [exact H|].
+    destruct (text_has n el || text_has n coll); [|exact H]. apply IH. cbn [item_like]. rewrite H.
+    change (Byte.eqb x5f x5f) with true. apply orb_true_r.
+  Qed.
+
+  Lemma not_in_scope G x : existsb (fun xv => item_like (fst xv)) (te_vars G) = false -> item_like x = true ->
+    glookup (te_vars G) x = None.
+  Proof.
+    intros H Hx. induction (te_vars G) as [|[y t] l IH]; [reflexivity|]. cbn [existsb fst] in H. apply orb_false_iff in H as [Hy Hl].
+    cbn [glookup]. destruct (bytes_eqb y x) eqn:E; [apply bytes_eqb_eq in E; subst y; congruence|]. apply IH. exact Hl.
+  Qed.
+
+  (* a Go variable that no CEL variable in scope is named after can be bound without disturbing the environment *)
+  Lemma env_ok_extra G cenv gvars x w : env_ok G cenv gvars -> glookup (te_vars G) x = None -> env_ok G cenv ((x, w) :: gvars).
+  Proof.
+    intros [Hf [Hn [Hval [Hthis Hvars]]]] Hx. repeat split; try assumption.
+    intros y t Hy Hg. destruct (Hvars y t Hy Hg) as [v [w0 [Hc [Hgl Hr]]]]. exists v, w0. split; [exact Hc|]. split; [|exact Hr].
+    cbn [glookup]. destruct (bytes_eqb x y) eqn:E; [apply bytes_eqb_eq in E; subst y; congruence|exact Hgl].
+  Qed.
+
+  Lemma go_exists_bool (f : gval -> gres) ws :
+    Forall (fun w => exists b, f w = GV (GBool b)) ws -> exists r, go_exists f ws = GV (GBool r).
+  Proof.
+    induction 1 as [|w ws [b Hb] _ [r IH]]; [exists false; reflexivity|]. cbn [go_exists]. rewrite Hb, IH.
+    destruct b; eauto.
+  Qed.
+
+  Lemma contains_bool wa ws :
+    Forall (fun w => exists b, gbinop BEq w wa = GV (GBool b)) ws ->
+    exists r, (fix go (els : list gval) : gres :=
+       match els with
+       | [] => GV (GBool false)
+       | y :: r => match gbinop BEq y wa with
+                   | GV (GBool true) => match go r with GStuck => GStuck | _ => GV (GBool true) end
+                   | GV (GBool false) => go r
+                   | _ => GStuck
+                   end
+       end) ws = GV (GBool r).
+  Proof.
+    induction 1 as [|w ws [b Hb] _ [r IH]]; [exists false; reflexivity|]. rewrite Hb, IH. destruct b; eauto.
+  Qed.
+
+  Lemma tests_bool (p : cval -> bool) (f : gval -> gres) vs ws :
+    Forall2 (fun v w => f w = GV (GBool (p v))) vs ws -> Forall (fun w => exists b, f w = GV (GBool b)) ws.
+  Proof. induction 1; constructor; eauto. Qed.
+
+  Lemma iface_list_not_slice vars es ws : GE vars (GIfaceList es) = GV (GSlice ws) -> False.
+  Proof.
+    cbn [geval]. generalize (@nil gval). induction es as [|x es IH]; intros acc H; [discriminate H|].
+    destruct (GE vars x) as [v| |]; try discriminate H. destruct (default_type v); try discriminate H; apply (IH _ H).
+  Qed.
+
+  Lemma in_list_case G cenv vars a b ta tb el coll g :
+    (match b with EList _ => False | _ => True end) ->
+    in_elem_ok ta tb = true ->
+    existsb (fun xv => item_like (fst xv)) (te_vars G) = false ->
+    env_ok G cenv vars ->
+    tr_in b el coll = Some g ->
+    (forall vars', env_ok G cenv vars' -> R ta (CE cenv a) (GE vars' el)) ->
+    R (SList tb) (CE cenv b) (GE vars coll) ->
+    R SBool (CE cenv (ECall2 FIn a b)) (GE vars g).
+  Proof.
+    intros Hb Hok Hsc Henv Htr Ra [vl [wl [Hgc [Hvl Hcl]]]].
+    destruct Hvl as [vs [ws [-> [-> [F _]]]]].
+    assert (Hce : CE cenv (ECall2 FIn a b) = match CE cenv a, CE cenv b with Some x, Some y => Some (lift2 cin x y) | _, _ => None end) by reflexivity.
+    assert (Hval : forall va, CE cenv a = Some (CV va) ->
+                   R SBool (CE cenv (ECall2 FIn a b)) (GV (GBool (existsb (fun y => cequal va y) vs)))).
+    { intros va Hca. apply R_bool_intro. rewrite Hce, Hca. destruct Hcl as [-> | ->]; cbn [lift2 cin]; auto. }
+    assert (Herr : CE cenv a = Some CErr -> forall r, R SBool (CE cenv (ECall2 FIn a b)) (GV (GBool r))).
+    { intros Hca r. apply R_bool_intro. right. rewrite Hce, Hca. destruct Hcl as [-> | ->]; reflexivity. }
+    destruct (Ra vars Henv) as [va [wa [Hge [Hva Hca]]]].
+    assert (Hgeneric : forall v, item_like v = true ->
+              R SBool (CE cenv (ECall2 FIn a b)) (GE vars (GExists v coll (GBin BEq (GVar v) el)))).
+    { intros v Hv. rewrite (gexists_eval vars v coll _ ws Hgc).
+      pose proof (not_in_scope G v Hsc Hv) as Hfree.
+      assert (Hstep : forall v0 w, vrel tb v0 w ->
+                exists va' wa', vrel ta va' wa' /\ (CE cenv a = Some (CV va') \/ CE cenv a = Some CErr) /\
+                  GE ((v, w) :: vars) (GBin BEq (GVar v) el) = GV (GBool (cequal va' v0))).
+      { intros v0 w Hvw.
+        destruct (Ra ((v, w) :: vars) (env_ok_extra G cenv vars v w Henv Hfree)) as [va' [wa' [Hg' [Hva' Hca']]]].
+        exists va', wa'. split; [exact Hva'|]. split; [exact Hca'|].
+        rewrite (gbin_values ((v, w) :: vars) BEq (GVar v) el w wa'); [|discriminate|discriminate| |exact Hg'].
+        - pose proof (member_tests ta tb va' wa' [v0] [w] Hok Hva' (Forall2_cons _ _ Hvw (Forall2_nil _))) as X.
+          inversion X; subst. assumption.
+        - cbn [geval glookup]. rewrite bytes_eqb_refl. reflexivity. }
+      destruct Hca as [Hca|Hca].
+      - assert (T : Forall2 (fun v0 w => GE ((v, w) :: vars) (GBin BEq (GVar v) el) = GV (GBool (cequal va v0))) vs ws).
+        { clear Hgc Hcl Hval. induction F as [|v0 w vs ws Hvw F IH]; constructor; [|exact IH].
+          destruct (Hstep v0 w Hvw) as [va' [wa' [_ [Hca' Hg']]]].
+          assert (va' = va) by (destruct Hca' as [Hca'|Hca']; congruence). subst va'. exact Hg'. }
+        pose proof (go_exists_tests (fun w => GE ((v, w) :: vars) (GBin BEq (GVar v) el)) (fun y => cequal va y) vs ws T) as E.
+        match goal with |- R _ _ ?g => replace g with (GV (GBool (existsb (fun y => cequal va y) vs))) by (symmetry; exact E) end.
+        apply Hval. exact Hca.
+      - assert (B : Forall (fun w => exists b0, GE ((v, w) :: vars) (GBin BEq (GVar v) el) = GV (GBool b0)) ws).
+        { clear Hgc Hcl Hval. induction F as [|v0 w vs ws Hvw F IH]; constructor; [|exact IH].
+          destruct (Hstep v0 w Hvw) as [va' [wa' [_ [_ Hg']]]]. eauto. }
+        destruct (go_exists_bool _ ws B) as [r Hr].
+        match goal with |- R _ _ ?g => replace g with (GV (GBool r)) by (symmetry; exact Hr) end.
+        apply Herr. exact Hca. }
+    assert (Hcontains : R SBool (CE cenv (ECall2 FIn a b)) (GE vars (GSlicesContains coll el))).
+    { rewrite (slices_contains_eval vars _ _ _ _ Hgc Hge).
+      pose proof (member_tests ta tb va wa vs ws Hok Hva F) as T.
+      destruct Hca as [Hca|Hca].
+      - rewrite (contains_tests wa (fun y => cequal va y) vs ws T). apply Hval. exact Hca.
+      - destruct (contains_bool wa ws (tests_bool _ _ _ _ T)) as [r Hr]. rewrite Hr. apply Herr. exact Hca. }
+    unfold tr_in in Htr. cbv zeta in Htr.
+    remember (fresh_var 64 s_item el coll) as fv eqn:Efv.
+    assert (Hfv : item_like fv = true) by (subst fv; apply item_like_fresh; reflexivity). clear Efv.
+    destruct b; try contradiction;
+      (destruct coll;
+       try (exfalso; exact (iface_list_not_slice vars _ _ Hgc));
+       try (match type of Htr with context [if ?c then _ else _] => destruct c end);
+       inv Htr; first [exact Hcontains | apply Hgeneric; exact Hfv]).
+  Qed.
+
   Lemma compr_eval cenv x r acc init cond step res vs a0 :
     CE cenv r = Some (CV (VList vs)) -> CE cenv init = Some a0 ->
     CE cenv (ECompr x r acc init cond step res) =
@@ -1171,20 +1352,38 @@ Section Sound.
         cbn [obind omap] in Htr. inv Htr.
         apply (logic_case cenv gvars false); [apply IHa | apply IHb]; auto.
       + (* FIn *)
-        destruct e2; try discriminate.
         assert (Hta : exists ta, cty G e1 = Some ta) by (cbn [cty] in Hty; destruct (cty G e1); [eauto|discriminate]).
         destruct Hta as [ta Hta].
-        match type of Hty with cty G (ECall2 FIn e1 (EList ?l)) = _ => destruct l as [|x r] end;
-          [cbn [cty] in Hty; rewrite Hta in Hty; destruct (mentions s_item e1); discriminate|].
-        assert (t = SBool).
-        { cbn [cty] in Hty. rewrite Hta in Hty. destruct (is_strlike ta); [destruct (forallb _ (x :: r)); congruence|].
-          destruct ta; try discriminate; destruct (forallb _ (x :: r)); congruence. }
-        subst t.
-        assert (Hel : exists el, TR e1 = Some el).
-        { change (TR (ECall2 FIn e1 (EList (x :: r)))) with (obind (TR e1) (fun el => obind (TR (EList (x :: r))) (fun coll => tr_in (EList (x :: r)) el coll))) in Htr.
-          destruct (TR e1); [eauto|discriminate]. }
+        assert (Htr_eq : TR (ECall2 FIn e1 e2) = obind (TR e1) (fun el => obind (TR e2) (fun coll => tr_in e2 el coll))) by reflexivity.
+        assert (Hel : exists el, TR e1 = Some el) by (rewrite Htr_eq in Htr; destruct (TR e1); [eauto|discriminate]).
         destruct Hel as [el Hel].
-        eapply in_literal_case; try eassumption. apply IHa; assumption.
+        destruct (match e2 with EList _ => true | _ => false end) eqn:Elist.
+        * (* a literal list *)
+          destruct e2; try discriminate.
+          match type of Hty with cty G (ECall2 FIn e1 (EList ?l)) = _ => destruct l as [|x r] end;
+            [cbn [cty] in Hty; rewrite Hta in Hty; destruct (mentions s_item e1 || _); discriminate|].
+          assert (t = SBool).
+          { cbn [cty] in Hty. rewrite Hta in Hty. destruct (is_strlike ta); [destruct (forallb _ (x :: r)); congruence|].
+            destruct ta; try discriminate; destruct (forallb _ (x :: r)); congruence. }
+          subst t.
+          eapply in_literal_case; try eassumption. apply IHa; assumption.
+        * (* a list-valued expression: slices.Contains or the generic loop *)
+          assert (Hnl : match e2 with EList _ => False | _ => True end) by (destruct e2; try exact I; discriminate).
+          assert (Hsb' : simple e2 = true) by (destruct e2; try exact Hsb; discriminate).
+          rewrite Htr_eq, Hel in Htr. cbn [obind] in Htr. destruct (TR e2) as [coll|] eqn:Ec; [|discriminate]. cbn [obind] in Htr.
+          cbn [cty] in Hty. rewrite Hta in Hty. remember (cty G e2) as otb eqn:Eo in Hty.
+          assert (Hinv : exists tb, otb = Some (SList tb) /\ in_elem_ok ta tb = true /\ t = SBool /\
+                                    existsb (fun xv => item_like (fst xv)) (te_vars G) = false).
+          { destruct e2; try discriminate Elist;
+              (destruct (mentions s_item e1 || existsb (fun xv => item_like (fst xv)) (te_vars G)) eqn:Eg; [discriminate Hty|];
+               apply orb_false_iff in Eg as [_ Esc];
+               destruct otb as [[]|]; try discriminate Hty;
+               match type of Hty with (if in_elem_ok ta ?tb then _ else _) = _ => destruct (in_elem_ok ta tb) eqn:Eok; [|discriminate Hty]; exists tb end;
+               inv Hty; auto). }
+          destruct Hinv as [tb [-> [Hok [-> Hsc]]]].
+          apply (in_list_case G cenv gvars e1 e2 ta tb el coll g Hnl Hok Hsc Henv Htr).
+          -- intros vars' He'. apply (IH e1) with (G := G); try assumption. cbn [csize] in Hsz. lia.
+          -- apply IHb; auto.
       + (* FMatches *)
         cbn [cty] in Hty. destruct (cty G e1) as [ta|] eqn:Ea; [|discriminate].
         remember (cty G e2) as otb eqn:Eo.
